@@ -562,3 +562,535 @@ Proof.
   assert (H2 : forallb ordinary_key p = true) by (vm_compute; reflexivity).
   refine (conj H1 (conj H2 (conj _ (conj (C11_write_subtree_path _ _ (sx "root") _ _ H1 H2) (conj _ _))))); vm_compute; reflexivity.
 Qed.
+
+(* ================================================================================================== *)
+(* added from Properties/C11_add.v (2026-10-01)                                              *)
+(* ================================================================================================== *)
+(* C11 additions, document level: the _xmlOpts entry (root tag, root attributes, namespace declaration) on reading,
+   what the writer does with it, and the read / write / read cycle on whole documents *)
+From Coq Require Import String.   (* string literals of the examples; imported first so the list names win *)
+From Coq Require Import NArith ZArith List Bool.
+From DictIO Require Import Chars Str Value Scalar SDict KeyPath Reader Expr Xml TreeSpec LayoutSpec MiscSpec SemProofs
+     XmlProofs XmlMoreProofs XmlDocProofs.
+Import ListNotations.
+
+(* ---- reading a document (XmlParser.parse_string) ------------------------------------------------------ *)
+(* A document as the XML library hands it over: the namespace map ns of the root element (prefix None = the default
+   namespace) and the root element with its local tag.  vocabulary (XmlDocProofs):
+     attr_names_distinct attrs   the attribute names are pairwise distinct (XML guarantees it)
+     doc_root_tag tag            the tag (NOTSPECIFIED for an empty tag, which no XML document has)
+     doc_root_attrs attrs        one entry name -> text per attribute, text unchanged (also empty ones), document order
+   The reader's result holds, under _xmlOpts, the dict {_nameSpaces, _rootTag, _rootAttributes, _addNodeNumbering};
+   every other entry, and the counter, are those of the element level (xml_parse, theorems above). *)
+Theorem C11_doc_read_opts : forall numbering ns tag attrs text kids count,
+  let root := Elem tag attrs text kids in
+  let d := fst (parse_doc numbering ns root count) in
+  let nodes := fst (xml_parse numbering root count) in
+  alookup k_xmlOpts d = Some (xml_opts numbering ns root)
+  /\ snd (parse_doc numbering ns root count) = snd (xml_parse numbering root count)
+  /\ adel k_xmlOpts d = adel k_xmlOpts nodes
+  /\ (alookup k_xmlOpts nodes = None -> d = nodes ++ [(k_xmlOpts, xml_opts numbering ns root)] /\ adel k_xmlOpts d = nodes)
+  /\ (forall k, k <> k_xmlOpts -> alookup k d = alookup k nodes)
+  /\ exists o ra, xml_opts numbering ns root = Dict o
+       /\ map fst o = [k_nameSpaces; k_rootTag; k_rootAttributes; k_addNodeNumbering]
+       /\ alookup k_nameSpaces o = Some (Dict (ns_dict ns))
+       /\ alookup k_rootTag o = Some (Leaf (SStr (doc_root_tag tag)))
+       /\ alookup k_rootAttributes o = Some (Dict ra)
+       /\ alookup k_addNodeNumbering o = Some (Leaf (SBool numbering))
+       /\ (attr_names_distinct attrs = true ->
+             ra = doc_root_attrs attrs
+             /\ forall a v, alookup (KS a) ra = Some (Leaf (SStr v)) <-> In (a, v) attrs).
+Proof. exact xml_doc_read_opts. Qed.
+Print Assumptions C11_doc_read_opts.
+
+(* with node numbering (documents of the class xml_ok) no element is keyed _xmlOpts - every key starts with six
+   digits -, so the entry stands behind the nodes and nothing is overwritten *)
+Theorem C11_doc_read_numbered : forall ns root c, xml_ok root = true -> counter_ok c ->
+  fst (parse_doc true ns root c) = fst (xml_parse true root c) ++ [(k_xmlOpts, xml_opts true ns root)]
+  /\ adel k_xmlOpts (fst (parse_doc true ns root c)) = fst (xml_parse true root c)
+  /\ alookup k_xmlOpts (fst (xml_parse true root c)) = None
+  /\ counter_ok (snd (parse_doc true ns root c)).
+Proof. exact xml_doc_read_numbered. Qed.
+Print Assumptions C11_doc_read_numbered.
+
+(* without node numbering, for the class xml_ok_off (no tag is a special key of the writer, _xmlOpts included) *)
+Theorem C11_doc_read_unnumbered : forall ns root c, xml_ok_off root = true -> counter_ok c ->
+  fst (parse_doc false ns root c) = xml_entries root ++ [(k_xmlOpts, xml_opts false ns root)]
+  /\ adel k_xmlOpts (fst (parse_doc false ns root c)) = xml_entries root
+  /\ alookup k_xmlOpts (xml_entries root) = None.
+Proof. exact xml_doc_read_unnumbered. Qed.
+Print Assumptions C11_doc_read_unnumbered.
+
+(* the _nameSpaces table.  vocabulary (XmlDocProofs):
+     ns_named ns / ns_default ns  the entries prefix -> uri of the prefixed declarations / None -> uri of the default one
+     ns_distinct ns               distinct prefixes, at most one default namespace (ns is a Python dict)
+     ns_clash ns                  a default namespace AND a prefix that is literally called None
+   No declaration: the table {xs: <XMLSchema uri>}.  Otherwise: the prefixed declarations in document order, then the
+   default namespace under the name None. *)
+Theorem C11_doc_namespaces :
+  ns_dict [] = [(KS (of_string "xs"), Leaf (SStr xs_uri))]
+  /\ (forall p u, ns_dict [(Some p, u)] = [(KS p, Leaf (SStr u))])
+  /\ (forall u, ns_dict [(None, u)] = [(KS w_None, Leaf (SStr u))])
+  /\ (forall ns, ns <> [] -> ns_distinct ns = true ->
+        (ns_clash ns = false -> ns_dict ns = ns_named ns ++ ns_default ns)
+        /\ (forall u, In (None, u) ns -> alookup (KS w_None) (ns_dict ns) = Some (Leaf (SStr u)))
+        /\ (forall p u, In (Some p, u) ns -> str_eqb p w_None && nonempty (ns_default ns) = false ->
+                        alookup (KS p) (ns_dict ns) = Some (Leaf (SStr u))))
+  /\ (forall ns, forallb ns_entry_ok (ns_dict ns) = true /\ ns_dict ns <> []).
+Proof. exact xml_doc_namespaces. Qed.
+Print Assumptions C11_doc_namespaces.
+
+(* non-vacuity: <p:r xmlns:p="urn:p" xmlns="urn:d" x="1" y="" z="TRUE"> with three children (a repeated tag, an
+   attribute, a nested element) *)
+Definition sd := of_string.
+Definition C11_doc : elem :=
+  Elem (sd "r") [(sd "x", sd "1"); (sd "y", []); (sd "z", sd "TRUE")] (Some (sd " rt "))
+    [ Elem (sd "a") [] (Some (sd "1.5")) [];
+      Elem (sd "a") [(sd "k", sd "v")] (Some (sd " true ")) [];
+      Elem (sd "g") [] None [ Elem (sd "h") [] (Some (sd "+5")) [] ] ].
+Definition C11_doc_ns : list (option str * str) := [(Some (sd "p"), sd "urn:p"); (None, sd "urn:d")].
+Definition C11_doc_opts (numbering : bool) : tree :=
+  Dict [ (KS (sd "_nameSpaces"), Dict [(KS (sd "p"), Leaf (SStr (sd "urn:p"))); (KS (sd "None"), Leaf (SStr (sd "urn:d")))]);
+         (KS (sd "_rootTag"), Leaf (SStr (sd "r")));
+         (KS (sd "_rootAttributes"), Dict [(KS (sd "x"), Leaf (SStr (sd "1"))); (KS (sd "y"), Leaf (SStr []));
+                                           (KS (sd "z"), Leaf (SStr (sd "TRUE")))]);
+         (KS (sd "_addNodeNumbering"), Leaf (SBool numbering)) ].
+Example C11_doc_read_opts_nonvacuous :
+  let d := fst (parse_doc true C11_doc_ns C11_doc 999998) in
+  xml_ok C11_doc = true /\ counter_ok 999998 /\ attr_names_distinct [(sd "x", sd "1"); (sd "y", []); (sd "z", sd "TRUE")] = true /\
+  alookup k_xmlOpts d = Some (xml_opts true C11_doc_ns C11_doc) /\ xml_opts true C11_doc_ns C11_doc = C11_doc_opts true /\
+  (exists o ra, C11_doc_opts true = Dict o /\ alookup k_rootAttributes o = Some (Dict ra) /\
+                alookup (KS (sd "z")) ra = Some (Leaf (SStr (sd "TRUE"))) /\ alookup (KS (sd "y")) ra = Some (Leaf (SStr []))) /\
+  d = fst (xml_parse true C11_doc 999998) ++ [(k_xmlOpts, xml_opts true C11_doc_ns C11_doc)] /\
+  map fst d = map (fun s => KS (sd s)) ["999999_a"; "000000_a"; "000001_g"; "_xmlOpts"]%string /\
+  snd (parse_doc true C11_doc_ns C11_doc 999998) = 2%Z.
+Proof.
+  intros d.
+  assert (H : xml_ok C11_doc = true) by (vm_compute; reflexivity).
+  assert (Hc : counter_ok 999998) by (unfold counter_ok; split; discriminate).
+  assert (Hd : attr_names_distinct [(sd "x", sd "1"); (sd "y", []); (sd "z", sd "TRUE")] = true) by (vm_compute; reflexivity).
+  assert (E : xml_opts true C11_doc_ns C11_doc = C11_doc_opts true) by (vm_compute; reflexivity).
+  destruct (C11_doc_read_opts true C11_doc_ns (sd "r") [(sd "x", sd "1"); (sd "y", []); (sd "z", sd "TRUE")] (Some (sd " rt "))
+              [ Elem (sd "a") [] (Some (sd "1.5")) []; Elem (sd "a") [(sd "k", sd "v")] (Some (sd " true ")) [];
+                Elem (sd "g") [] None [ Elem (sd "h") [] (Some (sd "+5")) [] ] ] 999998)
+    as (A1 & _ & _ & _ & _ & o & ra & Eo & _ & _ & _ & Lra & _ & Hra).
+  destruct (Hra Hd) as [_ Hl].
+  destruct (C11_doc_read_numbered C11_doc_ns C11_doc 999998 H Hc) as (B1 & _ & _ & _).
+  split; [exact H|]. split; [exact Hc|]. split; [exact Hd|]. split; [exact A1|]. split; [exact E|].
+  split.
+  { exists o, ra. split; [rewrite <- E; exact Eo|]. split; [exact Lra|]. split; apply Hl; vm_compute; tauto. }
+  split; [exact B1|]. split; vm_compute; reflexivity.
+Qed.
+
+Example C11_doc_read_unnumbered_nonvacuous :
+  let root := Elem (sd "r") [(sd "x", sd "1")] None
+                [ Elem (sd "a") [] (Some (sd "1.5")) []; Elem (sd "b") [(sd "k", sd "v")] (Some (sd " true ")) [] ] in
+  xml_ok_off root = true /\
+  fst (parse_doc false [(None, sd "urn:d")] root (-1)) = xml_entries root ++ [(k_xmlOpts, xml_opts false [(None, sd "urn:d")] root)] /\
+  fst (parse_doc false [(None, sd "urn:d")] root (-1)) =
+    [ (KS (sd "a"), Dict [(k_content, Leaf (SFloat (sd "1.5")))]);
+      (KS (sd "b"), Dict [(k_content, Leaf (SBool true)); (k_attributes, Dict [(KS (sd "k"), Leaf (SStr (sd "v")))])]);
+      (k_xmlOpts, Dict [ (k_nameSpaces, Dict [(KS (sd "None"), Leaf (SStr (sd "urn:d")))]); (k_rootTag, Leaf (SStr (sd "r")));
+                         (k_rootAttributes, Dict [(KS (sd "x"), Leaf (SStr (sd "1")))]); (k_addNodeNumbering, Leaf (SBool false)) ]) ].
+Proof.
+  intros root.
+  assert (H : xml_ok_off root = true) by (vm_compute; reflexivity).
+  assert (Hc : counter_ok (-1)) by (unfold counter_ok; split; discriminate).
+  destruct (C11_doc_read_unnumbered [(None, sd "urn:d")] root (-1) H Hc) as (B1 & _ & _).
+  split; [exact H|]. split; [exact B1|]. vm_compute. reflexivity.
+Qed.
+
+Example C11_doc_namespaces_nonvacuous :
+  let ns := [(Some (sd "p"), sd "urn:p"); (None, sd "urn:d"); (Some (sd "q"), sd "urn:q")] in
+  ns <> [] /\ ns_distinct ns = true /\ ns_clash ns = false /\
+  ns_dict ns = ns_named ns ++ ns_default ns /\
+  ns_named ns ++ ns_default ns = [(KS (sd "p"), Leaf (SStr (sd "urn:p"))); (KS (sd "q"), Leaf (SStr (sd "urn:q")));
+                                  (KS (sd "None"), Leaf (SStr (sd "urn:d")))] /\
+  alookup (KS w_None) (ns_dict ns) = Some (Leaf (SStr (sd "urn:d"))) /\
+  alookup (KS (sd "q")) (ns_dict ns) = Some (Leaf (SStr (sd "urn:q"))).
+Proof.
+  intros ns.
+  assert (H1 : ns <> []) by discriminate.
+  assert (H2 : ns_distinct ns = true) by (vm_compute; reflexivity).
+  assert (H3 : ns_clash ns = false) by (vm_compute; reflexivity).
+  destruct C11_doc_namespaces as (_ & _ & _ & G & _). destruct (G ns H1 H2) as (G1 & G2 & G3).
+  split; [exact H1|]. split; [exact H2|]. split; [exact H3|]. split; [exact (G1 H3)|]. split; [vm_compute; reflexivity|].
+  split; [apply G2; vm_compute; tauto|]. apply G3; [vm_compute; tauto|vm_compute; reflexivity].
+Qed.
+
+(* FINDING (a prefix that is literally called None next to a default namespace): <r xmlns="urn:d" xmlns:None="urn:n">.
+   The default namespace is entered under the string 'None' and overwrites the declared prefix None: the table is
+   {None: urn:d}, the declaration xmlns:None="urn:n" is lost.  The real library does the same
+   (XmlParser().parse_string gives '_nameSpaces': {'None': 'urn:d'}). *)
+Example C11_doc_namespace_None_prefix_finding :
+  let ns := [(None, sd "urn:d"); (Some (sd "None"), sd "urn:n")] in
+  ns_distinct ns = true /\ ns_clash ns = true /\ In (Some (sd "None"), sd "urn:n") ns /\
+  ns_dict ns = [(KS (sd "None"), Leaf (SStr (sd "urn:d")))] /\
+  ns_dict (rev ns) = [(KS (sd "None"), Leaf (SStr (sd "urn:d")))] /\
+  alookup (KS (sd "None")) (ns_dict ns) = Some (Leaf (SStr (sd "urn:d"))) /\
+  ns_named ns ++ ns_default ns = [(KS (sd "None"), Leaf (SStr (sd "urn:n"))); (KS (sd "None"), Leaf (SStr (sd "urn:d")))].
+Proof. intros ns. repeat split; try (vm_compute; reflexivity). vm_compute. tauto. Qed.
+
+(* FINDING (without node numbering, a child element called _xmlOpts): its entry is overwritten by the options, in
+   place; with numbering the key is 000000__xmlOpts and both survive. *)
+Example C11_doc_child_named_xmlOpts_finding :
+  let root := Elem (sd "r") [] None [ Elem (sd "_xmlOpts") [] (Some (sd "4")) []; Elem (sd "x") [] (Some (sd "5")) [] ] in
+  xml_ok root = true /\ xml_ok_off root = false /\
+  fst (xml_parse false root (-1)) = [ (k_xmlOpts, Dict [(k_content, Leaf (SInt 4))]); (KS (sd "x"), Dict [(k_content, Leaf (SInt 5))]) ] /\
+  fst (parse_doc false [] root (-1)) = [ (k_xmlOpts, xml_opts false [] root); (KS (sd "x"), Dict [(k_content, Leaf (SInt 5))]) ] /\
+  map fst (fst (parse_doc true [] root (-1))) = [KS (sd "000000__xmlOpts"); KS (sd "000001_x"); k_xmlOpts].
+Proof. intros root. repeat split; vm_compute; reflexivity. Qed.
+
+(* ---- writing a document (XmlFormatter.to_string) ------------------------------------------------------ *)
+(* format_doc d = Some (namespace (prefix, uri) the tags are put in, root element).  For a dict that carries the
+   reader's _xmlOpts entry:
+     - the namespace is ns_first ns, the first entry of the recorded table (C11_doc_ns_first: the declared prefix and
+       uri for a single prefixed declaration, the prefix None for a single default namespace, xs and the XMLSchema uri
+       when nothing was declared),
+     - the root tag is the recorded one,
+     - the root attributes are the recorded ones with non-empty text, in order, text unchanged
+       (filter has_value attrs) - unless the dict has a top-level _attrib.. dict entry, which replaces them,
+     - text and children are those of populate (theorems above); the _xmlOpts entry itself makes no element. *)
+Theorem C11_doc_write_uses_opts : forall d numbering ns tag attrs text kids,
+  alookup k_xmlOpts d = Some (xml_opts numbering ns (Elem tag attrs text kids)) ->
+  attr_names_distinct attrs = true ->
+  format_doc d =
+    Some (ns_first ns,
+          Elem (doc_root_tag tag)
+               (if existsb is_attrib_entry d then e_attrs (populate (doc_root_tag tag) (Dict d)) else filter has_value attrs)
+               (e_text (populate (doc_root_tag tag) (Dict d)))
+               (e_kids (populate (doc_root_tag tag) (Dict d)))).
+Proof. exact xml_doc_write_uses_opts. Qed.
+Print Assumptions C11_doc_write_uses_opts.
+
+Theorem C11_doc_write_plain : forall d numbering ns tag attrs text kids,
+  alookup k_xmlOpts d = Some (xml_opts numbering ns (Elem tag attrs text kids)) ->
+  nonempty tag = true -> attr_names_distinct attrs = true -> existsb is_attrib_entry d = false ->
+  exists pattrs text' kids',
+    populate tag (Dict d) = Elem tag pattrs text' kids' /\
+    format_doc d = Some (ns_first ns, Elem tag (filter has_value attrs) text' kids').
+Proof. exact xml_doc_write_plain. Qed.
+Print Assumptions C11_doc_write_plain.
+
+(* the namespace that is used; ns_back (p, u) is the declaration the written document carries (xmlns="u" for the
+   prefix None, xmlns:p="u" otherwise): read again it makes the one-entry table with the entry that was used *)
+Theorem C11_doc_ns_first :
+  ns_first [] = (of_string "xs", xs_uri)
+  /\ (forall p u, ns_first [(Some p, u)] = (p, u))
+  /\ (forall u, ns_first [(None, u)] = (w_None, u))
+  /\ (forall ns, first_ns (ns_dict ns) = Some (ns_first ns))
+  /\ (forall ns, ns_dict (ns_back (ns_first ns)) = firstn 1 (ns_dict ns)).
+Proof. exact xml_doc_ns_first. Qed.
+Print Assumptions C11_doc_ns_first.
+
+Theorem C11_doc_ns_first_prefixed : forall ns p u rest, ns_distinct ns = true -> ns_clash ns = false ->
+  ns_named ns = (KS p, Leaf (SStr u)) :: rest -> ns_first ns = (p, u).
+Proof. exact ns_first_prefixed. Qed.
+Print Assumptions C11_doc_ns_first_prefixed.
+
+(* non-vacuity: a hand-made dict with the reader's _xmlOpts entry of the document above (default namespace), a
+   numbered leaf, a _content entry, a nested dict; with and without a top-level _attributes entry *)
+Definition C11_doc_dict : list (key * tree) :=
+  [ (KS (sd "_attributes"), Dict [(KS (sd "id"), Leaf (SInt 7))]);
+    (KS (sd "000001_a"), Leaf (SInt 1));
+    (k_xmlOpts, xml_opts false [(None, sd "urn:d")] C11_doc);
+    (KS (sd "_content"), Leaf (SStr (sd "text")));
+    (KS (sd "b"), Dict [(KS (sd "c"), Leaf (SBool true))]) ].
+Example C11_doc_write_uses_opts_nonvacuous :
+  let ra := [(sd "x", sd "1"); (sd "y", []); (sd "z", sd "TRUE")] in
+  let d2 := adel (KS (sd "_attributes")) C11_doc_dict in
+  attr_names_distinct ra = true /\ existsb is_attrib_entry C11_doc_dict = true /\ existsb is_attrib_entry d2 = false /\
+  format_doc C11_doc_dict =
+    Some (sd "None", sd "urn:d",
+          Elem (sd "r") [(sd "id", sd "7")] (Some (sd "text"))
+            [Elem (sd "a") [] (Some (sd "1")) []; Elem (sd "b") [] None [Elem (sd "c") [] (Some (sd "True")) []]]) /\
+  format_doc d2 =
+    Some (sd "None", sd "urn:d",
+          Elem (sd "r") [(sd "x", sd "1"); (sd "z", sd "TRUE")] (Some (sd "text"))
+            [Elem (sd "a") [] (Some (sd "1")) []; Elem (sd "b") [] None [Elem (sd "c") [] (Some (sd "True")) []]]) /\
+  (exists pattrs text' kids', populate (sd "r") (Dict d2) = Elem (sd "r") pattrs text' kids' /\
+     format_doc d2 = Some (ns_first [(None, sd "urn:d")], Elem (sd "r") (filter has_value ra) text' kids')).
+Proof.
+  intros ra d2.
+  assert (Hd : attr_names_distinct ra = true) by (vm_compute; reflexivity).
+  assert (L1 : alookup k_xmlOpts C11_doc_dict = Some (xml_opts false [(None, sd "urn:d")] C11_doc)) by (vm_compute; reflexivity).
+  assert (L2 : alookup k_xmlOpts d2 = Some (xml_opts false [(None, sd "urn:d")] C11_doc)) by (vm_compute; reflexivity).
+  assert (Ha : existsb is_attrib_entry d2 = false) by (vm_compute; reflexivity).
+  pose proof (C11_doc_write_uses_opts C11_doc_dict false _ (sd "r") ra _ _ L1 Hd) as W1.
+  pose proof (C11_doc_write_uses_opts d2 false _ (sd "r") ra _ _ L2 Hd) as W2.
+  split; [exact Hd|]. split; [vm_compute; reflexivity|]. split; [exact Ha|].
+  split; [rewrite W1; vm_compute; reflexivity|]. split; [rewrite W2; vm_compute; reflexivity|].
+  exact (C11_doc_write_plain d2 false _ (sd "r") ra _ _ L2 eq_refl Hd Ha).
+Qed.
+
+(* FINDING (a default namespace next to a prefixed one): <r xmlns="urn:d" xmlns:q="urn:q">.  The reader enters the
+   default namespace LAST in the table (the key None is deleted and entered again as 'None'), the writer uses the
+   FIRST entry: the tags are put into urn:q, the default namespace is not declared any more.  The real library does the
+   same: the document is written as <r xmlns:q="urn:q">, read again: '_nameSpaces': {'q': 'urn:q'}. *)
+Example C11_doc_default_namespace_lost_finding :
+  let ns := [(None, sd "urn:d"); (Some (sd "q"), sd "urn:q")] in
+  ns_distinct ns = true /\ ns_clash ns = false /\
+  ns_dict ns = [(KS (sd "q"), Leaf (SStr (sd "urn:q"))); (KS (sd "None"), Leaf (SStr (sd "urn:d")))] /\
+  ns_first ns = (sd "q", sd "urn:q") /\
+  (exists e, format_doc (fst (parse_doc true ns C11_doc (-1))) = Some (sd "q", sd "urn:q", e)) /\
+  ns_dict (ns_back (ns_first ns)) = [(KS (sd "q"), Leaf (SStr (sd "urn:q")))].
+Proof.
+  intros ns.
+  assert (H2 : ns_distinct ns = true) by (vm_compute; reflexivity).
+  assert (H3 : ns_clash ns = false) by (vm_compute; reflexivity).
+  split; [exact H2|]. split; [exact H3|]. split; [vm_compute; reflexivity|].
+  split; [exact (C11_doc_ns_first_prefixed ns (sd "q") (sd "urn:q") [] H2 H3 eq_refl)|].
+  split; [eexists; vm_compute; reflexivity|]. vm_compute. reflexivity.
+Qed.
+
+(* ---- reading, writing and reading again, on whole documents --------------------------------------------- *)
+(* For a document (ns, root) of the class xml_ok (nothing is asked of the root's own tag and text; of its attributes
+   only that the names are distinct), read with node numbering:
+     - the writer produces, in the namespace ns_first ns, the element tree doc_written root: the recorded root tag, the
+       root attributes with non-empty text (in order, text unchanged - they are not re-spelled like the attributes of
+       inner elements), no root text, and the children normalise_elem of the original ones, as C11_write_inverts_read
+       describes them;
+     - that document - its namespace declaration is ns_back (ns_first ns) - read again gives the same nodes up to the
+       running numbers (C11_cycle), followed by the _xmlOpts entry with: the FIRST entry of the original namespace table,
+       the same root tag, the root attributes with non-empty text, the numbering flag;
+     - so if the table had one entry (a single declaration, prefixed or default - or none at all: the table {xs: ..}
+       is then declared explicitly) and no root attribute is empty, the _xmlOpts entry is the same and the two dicts
+       are equal up to the running node numbers. *)
+Theorem C11_doc_cycle : forall ns tag attrs text kids c c2,
+  xml_ok (Elem tag attrs text kids) = true -> attr_names_distinct attrs = true -> counter_ok c -> counter_ok c2 ->
+  let d := fst (parse_doc true ns (Elem tag attrs text kids) c) in
+  let d2 := fst (parse_doc true (ns_back (ns_first ns)) (doc_written (Elem tag attrs text kids)) c2) in
+  format_doc d = Some (ns_first ns, doc_written (Elem tag attrs text kids))
+  /\ d = fst (xml_parse true (Elem tag attrs text kids) c) ++ [(k_xmlOpts, xml_opts true ns (Elem tag attrs text kids))]
+  /\ d2 = fst (xml_parse true (doc_written (Elem tag attrs text kids)) c2) ++
+          [(k_xmlOpts, xml_opts true (ns_back (ns_first ns)) (doc_written (Elem tag attrs text kids)))]
+  /\ unnumber (fst (xml_parse true (doc_written (Elem tag attrs text kids)) c2)) =
+     unnumber (fst (xml_parse true (Elem tag attrs text kids) c))
+  /\ xml_opts true ns (Elem tag attrs text kids) =
+       Dict [(k_nameSpaces, Dict (ns_dict ns)); (k_rootTag, Leaf (SStr (doc_root_tag tag)));
+             (k_rootAttributes, Dict (doc_root_attrs attrs)); (k_addNodeNumbering, Leaf (SBool true))]
+  /\ xml_opts true (ns_back (ns_first ns)) (doc_written (Elem tag attrs text kids)) =
+       Dict [(k_nameSpaces, Dict (firstn 1 (ns_dict ns))); (k_rootTag, Leaf (SStr (doc_root_tag tag)));
+             (k_rootAttributes, Dict (doc_root_attrs (filter has_value attrs))); (k_addNodeNumbering, Leaf (SBool true))]
+  /\ (length (ns_dict ns) = 1%nat -> forallb has_value attrs = true ->
+        alookup k_xmlOpts d2 = alookup k_xmlOpts d /\ unnumber d2 = unnumber d).
+Proof. exact xml_doc_cycle. Qed.
+Print Assumptions C11_doc_cycle.
+
+(* without node numbering (class xml_ok_off) the cycle holds literally *)
+Theorem C11_doc_cycle_numbering_off : forall ns tag attrs text kids c c2,
+  xml_ok_off (Elem tag attrs text kids) = true -> attr_names_distinct attrs = true -> counter_ok c -> counter_ok c2 ->
+  let d := fst (parse_doc false ns (Elem tag attrs text kids) c) in
+  let d2 := fst (parse_doc false (ns_back (ns_first ns)) (doc_written (Elem tag attrs text kids)) c2) in
+  format_doc d = Some (ns_first ns, doc_written (Elem tag attrs text kids))
+  /\ d = xml_entries (Elem tag attrs text kids) ++ [(k_xmlOpts, xml_opts false ns (Elem tag attrs text kids))]
+  /\ d2 = xml_entries (Elem tag attrs text kids) ++
+          [(k_xmlOpts, xml_opts false (ns_back (ns_first ns)) (doc_written (Elem tag attrs text kids)))]
+  /\ xml_opts false (ns_back (ns_first ns)) (doc_written (Elem tag attrs text kids)) =
+       Dict [(k_nameSpaces, Dict (firstn 1 (ns_dict ns))); (k_rootTag, Leaf (SStr (doc_root_tag tag)));
+             (k_rootAttributes, Dict (doc_root_attrs (filter has_value attrs))); (k_addNodeNumbering, Leaf (SBool false))]
+  /\ (length (ns_dict ns) = 1%nat -> forallb has_value attrs = true -> d2 = d).
+Proof. exact xml_doc_cycle_off. Qed.
+Print Assumptions C11_doc_cycle_numbering_off.
+
+(* non-vacuity: <p:r xmlns:p="urn:p" x="1" z="TRUE"> with the three children of C11_doc (repeated tag a, attributes,
+   a nested element, text that is re-spelled), first read with the counter about to wrap, second read from a fresh one;
+   and the same document with a default namespace *)
+Definition C11_doc2 : elem :=
+  match C11_doc with Elem t _ x kids => Elem t [(sd "x", sd "1"); (sd "z", sd "TRUE")] x kids end.
+Example C11_doc_cycle_nonvacuous :
+  let ns := [(Some (sd "p"), sd "urn:p")] in
+  let d := fst (parse_doc true ns C11_doc2 999998) in
+  let w := Elem (sd "r") [(sd "x", sd "1"); (sd "z", sd "TRUE")] None
+             [ Elem (sd "a") [] (Some (sd "1.5")) []; Elem (sd "a") [(sd "k", sd "v")] (Some (sd "True")) [];
+               Elem (sd "g") [] None [ Elem (sd "h") [] (Some (sd "5")) [] ] ] in
+  let d2 := fst (parse_doc true ns w (-1)) in
+  xml_ok C11_doc2 = true /\ attr_names_distinct [(sd "x", sd "1"); (sd "z", sd "TRUE")] = true /\
+  length (ns_dict ns) = 1%nat /\ forallb has_value [(sd "x", sd "1"); (sd "z", sd "TRUE")] = true /\
+  ns_back (ns_first ns) = ns /\ doc_written C11_doc2 = w /\
+  format_doc d = Some (sd "p", sd "urn:p", w) /\
+  alookup k_xmlOpts d2 = alookup k_xmlOpts d /\ unnumber d2 = unnumber d /\
+  map fst d = map (fun s => KS (sd s)) ["999999_a"; "000000_a"; "000001_g"; "_xmlOpts"]%string /\
+  map fst d2 = map (fun s => KS (sd s)) ["000000_a"; "000001_a"; "000002_g"; "_xmlOpts"]%string /\
+  alookup k_xmlOpts d2 =
+    Some (Dict [ (k_nameSpaces, Dict [(KS (sd "p"), Leaf (SStr (sd "urn:p")))]); (k_rootTag, Leaf (SStr (sd "r")));
+                 (k_rootAttributes, Dict [(KS (sd "x"), Leaf (SStr (sd "1"))); (KS (sd "z"), Leaf (SStr (sd "TRUE")))]);
+                 (k_addNodeNumbering, Leaf (SBool true)) ]).
+Proof.
+  intros ns d w d2.
+  assert (H : xml_ok C11_doc2 = true) by (vm_compute; reflexivity).
+  assert (Hd : attr_names_distinct [(sd "x", sd "1"); (sd "z", sd "TRUE")] = true) by (vm_compute; reflexivity).
+  assert (Hc : counter_ok 999998) by (unfold counter_ok; split; discriminate).
+  assert (Hc2 : counter_ok (-1)) by (unfold counter_ok; split; discriminate).
+  assert (Hn : length (ns_dict ns) = 1%nat) by reflexivity.
+  assert (Hv : forallb has_value [(sd "x", sd "1"); (sd "z", sd "TRUE")] = true) by reflexivity.
+  assert (Eb : ns_back (ns_first ns) = ns) by (vm_compute; reflexivity).
+  assert (Ew : doc_written C11_doc2 = w) by (vm_compute; reflexivity).
+  destruct (C11_doc_cycle ns (sd "r") [(sd "x", sd "1"); (sd "z", sd "TRUE")] (Some (sd " rt "))
+              [ Elem (sd "a") [] (Some (sd "1.5")) []; Elem (sd "a") [(sd "k", sd "v")] (Some (sd " true ")) [];
+                Elem (sd "g") [] None [ Elem (sd "h") [] (Some (sd "+5")) [] ] ] 999998 (-1) H Hd Hc Hc2)
+    as (F & _ & _ & _ & _ & _ & G).
+  destruct (G Hn Hv) as [G1 G2]. change (Elem (sd "r") [(sd "x", sd "1"); (sd "z", sd "TRUE")] (Some (sd " rt ")) _) with C11_doc2 in *.
+  rewrite Eb, Ew in G1, G2. rewrite Ew in F.
+  split; [exact H|]. split; [exact Hd|]. split; [exact Hn|]. split; [exact Hv|]. split; [exact Eb|]. split; [exact Ew|].
+  split; [exact F|]. split; [exact G1|]. split; [exact G2|]. repeat split; vm_compute; reflexivity.
+Qed.
+
+Example C11_doc_cycle_default_namespace_nonvacuous :
+  let ns := [(None, sd "urn:d")] in
+  let d := fst (parse_doc true ns C11_doc2 999998) in
+  let d2 := fst (parse_doc true ns (doc_written C11_doc2) (-1)) in
+  ns_first ns = (sd "None", sd "urn:d") /\ ns_back (ns_first ns) = ns /\
+  format_doc d = Some (sd "None", sd "urn:d", doc_written C11_doc2) /\
+  alookup k_xmlOpts d2 = alookup k_xmlOpts d /\ unnumber d2 = unnumber d /\
+  (exists o, alookup k_xmlOpts d2 = Some (Dict o) /\
+             alookup k_nameSpaces o = Some (Dict [(KS (sd "None"), Leaf (SStr (sd "urn:d")))])).
+Proof.
+  intros ns d d2.
+  assert (H : xml_ok C11_doc2 = true) by (vm_compute; reflexivity).
+  assert (Hd : attr_names_distinct [(sd "x", sd "1"); (sd "z", sd "TRUE")] = true) by (vm_compute; reflexivity).
+  assert (Hc : counter_ok 999998) by (unfold counter_ok; split; discriminate).
+  assert (Hc2 : counter_ok (-1)) by (unfold counter_ok; split; discriminate).
+  assert (Eb : ns_back (ns_first ns) = ns) by (vm_compute; reflexivity).
+  destruct (C11_doc_cycle ns (sd "r") [(sd "x", sd "1"); (sd "z", sd "TRUE")] (Some (sd " rt "))
+              [ Elem (sd "a") [] (Some (sd "1.5")) []; Elem (sd "a") [(sd "k", sd "v")] (Some (sd " true ")) [];
+                Elem (sd "g") [] None [ Elem (sd "h") [] (Some (sd "+5")) [] ] ] 999998 (-1) H Hd Hc Hc2)
+    as (F & _ & _ & _ & _ & _ & G).
+  destruct (G eq_refl eq_refl) as [G1 G2]. change (Elem (sd "r") [(sd "x", sd "1"); (sd "z", sd "TRUE")] (Some (sd " rt ")) _) with C11_doc2 in *.
+  rewrite Eb in G1, G2.
+  split; [vm_compute; reflexivity|]. split; [exact Eb|]. split; [exact F|]. split; [exact G1|]. split; [exact G2|].
+  eexists. split; vm_compute; reflexivity.
+Qed.
+
+Example C11_doc_cycle_numbering_off_nonvacuous :
+  let ns := [(None, sd "urn:d")] in
+  let root := Elem (sd "r") [(sd "x", sd "1")] (Some (sd "rt"))
+                [ Elem (sd "a") [] (Some (sd "1.5")) []; Elem (sd "b") [(sd "k", sd "v")] (Some (sd " true ")) [] ] in
+  let d := fst (parse_doc false ns root (-1)) in
+  xml_ok_off root = true /\ ns_back (ns_first ns) = ns /\
+  format_doc d = Some (sd "None", sd "urn:d", Elem (sd "r") [(sd "x", sd "1")] None
+                         [ Elem (sd "a") [] (Some (sd "1.5")) []; Elem (sd "b") [(sd "k", sd "v")] (Some (sd "True")) [] ]) /\
+  fst (parse_doc false ns (doc_written root) 17) = d.
+Proof.
+  intros ns root d.
+  assert (H : xml_ok_off root = true) by (vm_compute; reflexivity).
+  assert (Hd : attr_names_distinct [(sd "x", sd "1")] = true) by (vm_compute; reflexivity).
+  assert (Hc : counter_ok (-1)) by (unfold counter_ok; split; discriminate).
+  assert (Hc2 : counter_ok 17) by (unfold counter_ok; split; discriminate).
+  assert (Eb : ns_back (ns_first ns) = ns) by (vm_compute; reflexivity).
+  destruct (C11_doc_cycle_numbering_off ns _ _ _ _ (-1)%Z 17%Z H Hd Hc Hc2) as (F & _ & _ & _ & G).
+  specialize (G eq_refl eq_refl). rewrite Eb in G.
+  split; [exact H|]. split; [exact Eb|]. split; [unfold d, root; rewrite F; vm_compute; reflexivity|exact G].
+Qed.
+
+(* FINDING (a root attribute with empty text): it is recorded on reading (y -> ''), not written, and gone from
+   _rootAttributes after the second read.  The real library does the same. *)
+Example C11_doc_cycle_empty_root_attribute_finding :
+  let ns := [(Some (sd "p"), sd "urn:p")] in
+  let d := fst (parse_doc true ns C11_doc (-1)) in
+  let d2 := fst (parse_doc true (ns_back (ns_first ns)) (doc_written C11_doc) (-1)) in
+  xml_ok C11_doc = true /\ forallb has_value [(sd "x", sd "1"); (sd "y", []); (sd "z", sd "TRUE")] = false /\
+  (exists o, alookup k_xmlOpts d = Some (Dict o) /\
+     alookup k_rootAttributes o = Some (Dict [(KS (sd "x"), Leaf (SStr (sd "1"))); (KS (sd "y"), Leaf (SStr []));
+                                              (KS (sd "z"), Leaf (SStr (sd "TRUE")))])) /\
+  (exists o, alookup k_xmlOpts d2 = Some (Dict o) /\
+     alookup k_rootAttributes o = Some (Dict [(KS (sd "x"), Leaf (SStr (sd "1"))); (KS (sd "z"), Leaf (SStr (sd "TRUE")))])) /\
+  adel k_xmlOpts d2 = adel k_xmlOpts d.
+Proof. intros ns d d2. split; [vm_compute; reflexivity|]. split; [reflexivity|]. split; [eexists; split; vm_compute; reflexivity|].
+  split; [eexists; split; vm_compute; reflexivity|]. vm_compute. reflexivity. Qed.
+
+(* FINDING (no namespace declared): the reader records the table {xs: <XMLSchema uri>}, the writer declares it: the
+   written document carries xmlns:xs="..." although the original had no declaration.  The _xmlOpts entry is the same
+   before and after.  The real library does the same. *)
+Example C11_doc_cycle_undeclared_namespace_finding :
+  let d := fst (parse_doc true [] C11_doc2 (-1)) in
+  let d2 := fst (parse_doc true (ns_back (ns_first [])) (doc_written C11_doc2) (-1)) in
+  ns_first [] = (sd "xs", xs_uri) /\ ns_back (ns_first []) = [(Some (sd "xs"), xs_uri)] /\ ns_back (ns_first []) <> [] /\
+  (exists e, format_doc d = Some (sd "xs", xs_uri, e)) /\ d2 = d.
+Proof. intros d d2. split; [reflexivity|]. split; [reflexivity|]. split; [discriminate|].
+  split; [eexists; vm_compute; reflexivity|]. vm_compute. reflexivity. Qed.
+
+(* FINDING (root attributes are not re-spelled, the attributes of inner elements are): z="TRUE" on the root is written
+   back as TRUE, on an inner element as true *)
+Example C11_doc_root_attribute_spelling_note :
+  let root := Elem (sd "r") [(sd "z", sd "TRUE")] None [ Elem (sd "a") [(sd "z", sd "TRUE")] None []; Elem (sd "b") [] None [] ] in
+  format_doc (fst (parse_doc true [] root (-1))) =
+    Some (sd "xs", xs_uri, Elem (sd "r") [(sd "z", sd "TRUE")] None [ Elem (sd "a") [(sd "z", sd "true")] None []; Elem (sd "b") [] None [] ]).
+Proof. vm_compute. reflexivity. Qed.
+
+(* whatever changes, changes in the first cycle.  For EVERY namespace map and all root attributes (empty ones, several
+   declarations): the written document (doc_written root, declaration ns_back (ns_first ns)), read (d2), written again
+   (in the same namespace) and read again (d3), gives the same dict up to the running node numbers, _xmlOpts included. *)
+Theorem C11_doc_cycle_stable : forall ns tag attrs text kids c2 c3,
+  let root := Elem tag attrs text kids in
+  let ns' := ns_back (ns_first ns) in
+  xml_ok root = true -> attr_names_distinct attrs = true -> counter_ok c2 -> counter_ok c3 ->
+  let d2 := fst (parse_doc true ns' (doc_written root) c2) in
+  let d3 := fst (parse_doc true ns' (doc_written (doc_written root)) c3) in
+  format_doc d2 = Some (ns_first ns, doc_written (doc_written root))
+  /\ alookup k_xmlOpts d3 = alookup k_xmlOpts d2
+  /\ unnumber d3 = unnumber d2.
+Proof. exact xml_doc_cycle_stable. Qed.
+Print Assumptions C11_doc_cycle_stable.
+
+(* non-vacuity: C11_doc (an empty root attribute) with two declarations; the first cycle changes the _xmlOpts entry
+   (y and the default namespace go), the second one changes nothing *)
+Example C11_doc_cycle_stable_nonvacuous :
+  let ns' := ns_back (ns_first C11_doc_ns) in
+  let d := fst (parse_doc true C11_doc_ns C11_doc 5) in
+  let d2 := fst (parse_doc true ns' (doc_written C11_doc) 999998) in
+  let d3 := fst (parse_doc true ns' (doc_written (doc_written C11_doc)) (-1)) in
+  xml_ok C11_doc = true /\ ns' = [(Some (sd "p"), sd "urn:p")] /\
+  alookup k_xmlOpts d = Some (C11_doc_opts true) /\ alookup k_xmlOpts d2 <> alookup k_xmlOpts d /\
+  format_doc d2 = Some (sd "p", sd "urn:p", doc_written (doc_written C11_doc)) /\
+  alookup k_xmlOpts d3 = alookup k_xmlOpts d2 /\ unnumber d3 = unnumber d2 /\
+  alookup k_xmlOpts d3 =
+    Some (Dict [ (k_nameSpaces, Dict [(KS (sd "p"), Leaf (SStr (sd "urn:p")))]); (k_rootTag, Leaf (SStr (sd "r")));
+                 (k_rootAttributes, Dict [(KS (sd "x"), Leaf (SStr (sd "1"))); (KS (sd "z"), Leaf (SStr (sd "TRUE")))]);
+                 (k_addNodeNumbering, Leaf (SBool true)) ]) /\
+  map fst d2 <> map fst d3.
+Proof.
+  intros ns' d d2 d3.
+  assert (H : xml_ok C11_doc = true) by (vm_compute; reflexivity).
+  assert (Hd : attr_names_distinct [(sd "x", sd "1"); (sd "y", []); (sd "z", sd "TRUE")] = true) by (vm_compute; reflexivity).
+  assert (Hc2 : counter_ok 999998) by (unfold counter_ok; split; discriminate).
+  assert (Hc3 : counter_ok (-1)) by (unfold counter_ok; split; discriminate).
+  destruct (C11_doc_cycle_stable C11_doc_ns (sd "r") [(sd "x", sd "1"); (sd "y", []); (sd "z", sd "TRUE")] (Some (sd " rt "))
+              [ Elem (sd "a") [] (Some (sd "1.5")) []; Elem (sd "a") [(sd "k", sd "v")] (Some (sd " true ")) [];
+                Elem (sd "g") [] None [ Elem (sd "h") [] (Some (sd "+5")) [] ] ] 999998 (-1) H Hd Hc2 Hc3) as (F & G1 & G2).
+  change (Elem (sd "r") [(sd "x", sd "1"); (sd "y", []); (sd "z", sd "TRUE")] (Some (sd " rt ")) _) with C11_doc in *.
+  split; [exact H|]. split; [vm_compute; reflexivity|]. split; [vm_compute; reflexivity|]. split; [vm_compute; discriminate|].
+  split; [unfold d2, ns'; rewrite F; vm_compute; reflexivity|]. split; [exact G1|]. split; [exact G2|].
+  split; [vm_compute; reflexivity|]. vm_compute. discriminate.
+Qed.
+
+(* a dict without an _xmlOpts entry is written with the defaults: namespace xs, root tag NOTSPECIFIED, the root
+   attributes those of a top-level _attrib.. entry, if any *)
+Theorem C11_doc_write_no_opts : forall d, alookup k_xmlOpts d = None ->
+  format_doc d = Some (of_string "xs", xs_uri, populate w_NOTSPECIFIED (Dict d)).
+Proof. exact xml_doc_write_no_opts. Qed.
+Print Assumptions C11_doc_write_no_opts.
+
+Example C11_doc_write_no_opts_nonvacuous :
+  let d := adel k_xmlOpts C11_doc_dict in
+  alookup k_xmlOpts d = None /\
+  format_doc d = Some (sd "xs", xs_uri,
+                       Elem (sd "NOTSPECIFIED") [(sd "id", sd "7")] (Some (sd "text"))
+                         [Elem (sd "a") [] (Some (sd "1")) []; Elem (sd "b") [] None [Elem (sd "c") [] (Some (sd "True")) []]]).
+Proof.
+  intros d. assert (L : alookup k_xmlOpts d = None) by (vm_compute; reflexivity).
+  split; [exact L|]. rewrite (C11_doc_write_no_opts d L). vm_compute. reflexivity.
+Qed.
+
+(* NOTE (why attr_names_distinct): the element type of the model is a list of pairs, so it can hold what no XML document
+   has, two attributes of the same name; the reader's dict keeps the last text at the first position. *)
+Example C11_doc_duplicate_attribute_note :
+  let root := Elem (sd "r") [(sd "x", sd "1"); (sd "y", sd "2"); (sd "x", sd "3")] None [] in
+  attr_names_distinct [(sd "x", sd "1"); (sd "y", sd "2"); (sd "x", sd "3")] = false /\
+  (exists o, xml_opts true [] root = Dict o /\
+     alookup k_rootAttributes o = Some (Dict [(KS (sd "x"), Leaf (SStr (sd "3"))); (KS (sd "y"), Leaf (SStr (sd "2")))])).
+Proof. intros root. split; [vm_compute; reflexivity|]. eexists. split; vm_compute; reflexivity. Qed.
+
+(* NOTE (model and code): for a namespace prefix of the form ns<digits> (xmlns:ns0="..") format_doc answers as above, but
+   the real writer raises ValueError('Prefix format reserved for internal use') in xml.etree register_namespace: such
+   a document can be read but not written.  The element-tree view cannot see this; see the report. *)
